@@ -18,7 +18,7 @@ import shutil
 
 import yaml
 
-from .. import gen, isolate
+from .. import libs, gen, isolate
 
 BASE = """\
 library: Place
@@ -354,7 +354,7 @@ def create_wrapper_case(args):
         return ("create_wrapper", "bad", "command line failed: %s" % rb.msg)
     if ta != tb:
         return ("create_wrapper", "bad", "\n".join(isolate.diff_trees(tb, ta, 2)))
-    if not r.value:
+    if not r.value and any(k.endswith((".c", ".cpp", ".h", ".f")) and not k.startswith(("py", "lua")) for k in ta):
         return ("create_wrapper", "bad", "create_wrapper returned a config without file lists")
     return ("create_wrapper", "ok", len(ta))
 
@@ -483,7 +483,7 @@ def run(ctx):
     add(("blocks", "nested", True), blk, d)
     ctx.rng.shuffle(jobs)
     res = isolate.pmap(compare_case, jobs, W)
-    res += isolate.pmap(create_wrapper_case, [(os.path.join(wd, "cw%d" % i), t) for i, t in enumerate((BASE, CLI_BASE, BLOCK_BASE))], W)
+    res += isolate.pmap(create_wrapper_case, [(os.path.join(wd, "cw%d" % i), t) for i, t in enumerate((BASE, CLI_BASE, BLOCK_BASE, BASE_C, WRAP_BASE, TEMPLATE_BASE, libs.SMALL_C, libs.OTHER_CXX))], W)
     parts = {}
     for label, st, info in res:
         kind = label[0] if isinstance(label, tuple) else label
